@@ -11,6 +11,8 @@ import copy
 from .. import build, cases, gen
 from ..impl import Impl
 
+GEN_FILES = ['ParisSrc.v']
+
 BOUNDARY = {
     'KCenters': [dict(n_clusters=1), dict(n_clusters=3, center_position='both'), dict(n_clusters=2, directed=True)],
     'Propagation': [dict(n_iter=-1), dict(n_iter=0), dict(n_iter=1, node_order='increasing'), dict(weighted=False, n_iter=-1)],
@@ -166,6 +168,14 @@ def run(ctx, scratch):
             for name in ('Propagation', 'DiffusionClassifier', 'PageRankClassifier', 'NNClassifier'):
                 opts = dict(seeds=seeds, params=dict(n_iter=3) if name == 'Propagation' else {})
                 _both(ctx, normal, chk, name, spec, opts, fam + '+large_label', timeout=20)
+        # Paris on near-tied similarities at index placements that change the neighbour scan order (tie rule of the chain)
+        from .c07 import near_tie
+        for k in range(60 if quick else 500):
+            n, E, mode = near_tie(rng)
+            coo = sorted([[i, j, w] for (i, j, w) in E] + [[j, i, w] for (i, j, w) in E])
+            spec = dict(shape=[n, n], coo=coo, dtype='float', fmt='csr')
+            for params in (dict(weights='degree'), dict(weights='uniform')):
+                _both(ctx, normal, None, 'Paris', spec, dict(params=params), 'near_tie_' + mode, timeout=5)
         # oscillating configurations under the default (unbounded) number of sweeps
         for k in range(60 if quick else 600):
             spec, n = oscillating(rng)
